@@ -6,30 +6,36 @@ CLAUSES = {
     1: "more deliveries hold a permit than the configured concurrency limit of a scope (all / source IP / sender domain / destination domain)",
     2: "returning a permit that is held crashed (mismatched Release)",
     3: "acquiring a permit crashed",
+    30: "bucket reaper: more holders of a key than its concurrency limit (a bucket with permits out was dropped, or a dropped bucket was handed out)",
+    31: "bucket reaper: returning a held permit crashed, or a take crashed",
     4: "after quiescence (everything returned) a permit could not be acquired although only concurrency limits are configured",
 }
 TRUSTED = [
     "Coq 8.16.1 kernel (coqc); vm_compute",
     "harness/c11 (Go: Group built through Init from configuration nodes; sequential histories with 2 ms time-outs, 20 020 distinct keys, 64-worker stress run counting concurrent holders)",
-    "Limits/Model.v: a blocked take is represented by its time-out outcome; rate limiters never refill during a run (1 h period); bucket reaping (1 minute idle) is outside the model",
+    "Limits/Model.v: a blocked take is represented by its time-out outcome; rate limiters never refill during a run (1 h period); bucket reaping is outside that model and has its own: Limits/Reap.v (one BucketSet of semaphores, ReapInterval 150 ms, idle periods of 200 ms; histories whose segments between idle periods took more than 75 ms are re-run, then dropped and counted)",
     "session-level and remote-target permit lifetimes are covered by C03 / C05 harnesses, not here",
 ]
 
 def run(ctx):
     ctx.trusted = TRUSTED
-    ok, detail = core.coq_build(ctx, ["theories/Props/C11.vo", "theories/Limits/Corr.vo", "theories/Limits/RemoteCorr.vo", "theories/Limits/SessionCorr.vo"])
+    ok, detail = core.coq_build(ctx, ["theories/Props/C11.vo", "theories/Limits/Corr.vo", "theories/Limits/Reap.vo", "theories/Limits/ReapLemmas.vo", "theories/Limits/RemoteCorr.vo", "theories/Limits/SessionCorr.vo"])
     ctx.oblige("coq build of Props/C11.vo and its dependencies", ok, detail)
     core.audit(ctx)
     if not ok:
         return
     core.check_theorems(ctx, "theories/Props/C11.v", "Props.C11")
     ov = core.write_overlay(ctx, {"internal/limits/zz_verif_c11_test.go": "harness/c11/c11_test.go",
+                                  "internal/limits/zz_verif_c11reap_test.go": "harness/c11/c11_reap_test.go",
                                   "internal/target/remote/zz_verif_c11r_test.go": "harness/c11/c11_remote_test.go",
                                   "internal/endpoint/smtp/zz_verif_c03_test.go": "harness/c03/c03_test.go"},
                             {"internal/limits": "limits", "internal/target/remote": "remote", "internal/endpoint/smtp": "smtp"})
     core.generic_corr(ctx, overlay=ov, pkg="internal/limits", run="TestVerif_C11",
                       n=(400 if ctx.tier == "quick" else 15000), corr_module="Limits.Corr", clause_names=CLAUSES,
                       name="limits", shard=500)
+    core.generic_corr(ctx, overlay=ov, pkg="internal/limits", run="TestVerif_C11Reap",
+                      n=(90 if ctx.tier == "quick" else 1500), corr_module="Limits.Reap", clause_names=CLAUSES,
+                      name="reaper", shard=500)
     core.generic_corr(ctx, overlay=ov, pkg="internal/target/remote", run="TestVerif_C11Remote",
                       n=(60 if ctx.tier == "quick" else 1200), corr_module="Limits.RemoteCorr", clause_names=CLAUSES,
                       name="remote", shard=600)
